@@ -712,6 +712,9 @@ func (e *Engine) verifyFunc(fn *ssa.Function, c *Contract) (rep *FuncReport) {
 		}
 	}
 	sort.Strings(rep.NeverEvents)
+	for _, n := range rep.NeverEvents {
+		ctx.note("the contract of %s names event %q, which no path produces: the clause states its absence", c.Key, n)
+	}
 	return rep
 }
 
